@@ -108,7 +108,7 @@ impl ToFeelString for FeelContext {
             "\"" => "\"\\\"\"".to_string(),
             _ => name_str,
           };
-          format!(r#"{}: {}"#, padded_name_str, value)
+          format!(r#"{}: {}"#, padded_name_str, value.to_feel_string())
         })
         .collect::<Vec<String>>()
         .join(", ")
